@@ -106,6 +106,7 @@ def gen(rng: Rng, tier, i):
             op["seed"] = r.randrange(10 ** 6)
         ops.append(op)
     return {"scan": scan, "det": det, "fill": rng.randrange(10 ** 6), "ops": ops,
+            "dtype": rng.pick(["float32", "float32", "float64", "uint16", "int32"]),
             "raster": rng.chance(0.35), "raster_fit": rng.pick(["constant", "plane", "none"])}
 
 
@@ -117,7 +118,10 @@ def _data(plan):
     for i in range(sx):
         for j in range(sy):
             a[i, j, g.integers(0, H), g.integers(0, W)] += g.uniform(3, 10)
-    return a.astype(np.float32)
+    dt = plan.get("dtype", "float32")
+    if dt in ("uint16", "int32"):
+        return np.round(a * 50 + 1).astype(dt)   # positive integer counts
+    return a.astype(dt)
 
 
 def _ref_com(a):
@@ -299,7 +303,7 @@ def run(plan):
                 call(tag, lambda b: model.shift_origin_to(tuple(coord), b), op)
                 shifted_once = True
                 got = model.shifted_tensor.detach().numpy().reshape(n, H, W)
-                src = a.reshape(n, H, W)
+                src = a.reshape(n, H, W).astype(np.float64)
                 worst = 0.0
                 for q in range(n):
                     want = np.roll(src[q], (-(org[q, 0] - coord[0]), -(org[q, 1] - coord[1])), (0, 1))
